@@ -121,6 +121,9 @@ def _child(mod, prop, scenario, tape_values, wfd):
         faulthandler.dump_traceback_later(WATCHDOG_S, exit=True, file=os.fdopen(keep, "w"))
         os.dup2(devnull, 2)
     gc.disable()
+    # the inherited SIGINT disposition must not matter (a check started in the background of a
+    # non-interactive shell inherits SIG_IGN, and asyncio.run then installs no handler at all)
+    signal.signal(signal.SIGINT, signal.default_int_handler)
     knobs = scenario.get("knobs", {})
     seed = scenario.get("seed", 0)
     patches._hash_state["rng"] = random.Random(knobs.get("hash_seed", seed) ^ 0xC0FFEE)
@@ -149,6 +152,11 @@ def _child(mod, prop, scenario, tape_values, wfd):
         S.active = False
         dump = S.thread_dump() if reason != "main-done" else []
         h.thread_dump = dump
+        if S.harness_failure:
+            # resource exhaustion of the machine (not modelled): never a verdict
+            _write_all(wfd, json.dumps({"harness_error": "resource exhaustion inside the run: %s" % S.harness_failure}).encode())
+            os.close(wfd)
+            os._exit(0)
         try:
             h.ev("end-of-run", reason=reason)
             violations, shape, nontrivial = mod.check(h, reason)
